@@ -7,16 +7,16 @@ import RsassModel.Sel.Parse
 namespace Sel
 
 /-- a name made of plain characters only (`selector_plain_part` characters) -/
-def isPlainName (n : List Char) : Bool := !n.isEmpty && n.all isPlainChar
+def isPlainName (q : LexQuirks) (n : List Char) : Bool := !n.isEmpty && n.all (isPlainChar q)
 
 /-- the lexer stops at `stop`: end of text or a character that cannot continue a name -/
-def stopsName (rest : List Char) : Bool :=
+def stopsName (q : LexQuirks) (rest : List Char) : Bool :=
   match rest with
   | [] => true
-  | c :: _ => !isPlainChar c && c != '\\' && c != '#'
+  | c :: _ => !isPlainChar q c && c != '\\' && c != '#'
 
 theorem nameTail_plain (q : LexQuirks) (hash : Bool) :
-    ∀ (n acc rest : List Char) (fuel : Nat), n.all isPlainChar = true → stopsName rest = true →
+    ∀ (n acc rest : List Char) (fuel : Nat), n.all (isPlainChar q) = true → stopsName q rest = true →
       n.length < fuel → nameTail q hash fuel acc (n ++ rest) = (acc ++ n, rest)
   | [], acc, rest, fuel, _, hs, hf => by
     cases fuel with
@@ -37,8 +37,8 @@ theorem nameTail_plain (q : LexQuirks) (hash : Bool) :
       simp [nameTail, hn.1, this]
 
 /-- plain names lex to themselves -/
-theorem cssName_plain (q : LexQuirks) (hash : Bool) (n rest : List Char) (hn : isPlainName n = true)
-    (hs : stopsName rest = true) : cssName q hash (n ++ rest) = some (n, rest) := by
+theorem cssName_plain (q : LexQuirks) (hash : Bool) (n rest : List Char) (hn : isPlainName q n = true)
+    (hs : stopsName q rest = true) : cssName q hash (n ++ rest) = some (n, rest) := by
   cases n with
   | nil => simp [isPlainName] at hn
   | cons x xs =>
